@@ -21,6 +21,16 @@ Theorem C01_de_trial take donor x lo hi : fle lo hi = true -> in_box1 x lo hi = 
   fis_nan (apply_bounds MReflect donor lo hi) = false -> in_box1 (de_gene take donor x lo hi) lo hi = true.
 Proof. exact (de_gene_in_box take donor x lo hi). Qed.
 Print Assumptions C01_de_trial.
+(* the same with the operators' own arithmetic included (x + mask * noise; alpha x + (1 - alpha) y; r0 + f (r1 - r2)): these are the
+   definitions the harness compares bit for bit with the real operators driven by prepared random draws *)
+Theorem C01_gaussian_full x noise mask lo hi : fle lo hi = true -> fis_nan (gauss_full x noise mask lo hi) = false -> in_box1 (gauss_full x noise mask lo hi) lo hi = true.
+Proof. exact (gauss_full_in_box x noise mask lo hi). Qed.
+Theorem C01_arithmetic_full a x y lo hi : fle lo hi = true -> fis_nan (arith_combine a x y) = false -> in_box1 (arith_gene a x y lo hi) lo hi = true.
+Proof. exact (arith_gene_in_box a x y lo hi). Qed.
+Theorem C01_de_full take f r0 r1 r2 x lo hi : fle lo hi = true -> in_box1 x lo hi = true ->
+  fis_nan (apply_bounds MReflect (de_donor f r0 r1 r2) lo hi) = false -> in_box1 (de_full take f r0 r1 r2 x lo hi) lo hi = true.
+Proof. exact (de_full_in_box take f r0 r1 r2 x lo hi). Qed.
+Print Assumptions C01_de_full.
 Theorem C01_sample_normal fuel draws box x : sample_normal fuel draws box = Some x -> in_box x box = true.
 Proof. exact (sample_normal_in_box fuel draws box x). Qed.
 Theorem C01_gaussian_vector xs deltas box : length xs = length box -> length deltas = length box ->
